@@ -6,6 +6,15 @@ from dashlive.server.events.ping_pong import PingPongEvents
 
 def build(key, variant, i):
     qual = key.split(':')[1]
+    if qual.endswith('int_or_default'):
+        from dashlive.server.events.base import EventBase
+        g = lambda k: int(i.get(k, 0))
+        has_min, has_max = 'min=True' in variant, 'max=True' in variant
+        text = '' if i.get('opt_empty') else str(g('opt_v'))
+        env = {'opt_default': g('opt_default'), 'opt_min': g('opt_min'), 'opt_max': g('opt_max'), 'opt_v': g('opt_v'),
+               'opt_empty': bool(i.get('opt_empty'))}
+        f = EventBase.int_or_default_from_string(g('opt_default'), g('opt_min') if has_min else None, g('opt_max') if has_max else None)
+        return {'env': env, 'old_env': dict(env), 'call': lambda: f(text)}
     ev = PingPongEvents(start=int(i.get('start', 0)), interval=int(i.get('interval', 1000)), count=int(i['count']),
                         duration=int(i['duration']), timescale=int(i['ets']), version=int(i.get('version', 0)),
                         inband=bool(i.get('inband', True)))
